@@ -33,6 +33,12 @@ pub struct FCore {
 impl FCore {
     fn result(&self, v: Value) -> HandlerResult<u64> {
         let mut s = self.s.lock().unwrap();
+        if s.calls.len() >= STORM_CALLS {
+            // invoked over and over for one request: the count is the observation; park until the case is torn down
+            drop(s);
+            storm_park();
+            return Err(std::io::Error::other("handler invoked without end"));
+        }
         s.calls.push(v);
         match s.r.as_str() {
             "zero" => Ok(0),
@@ -120,6 +126,8 @@ struct SrvRig {
     tx: UnixStream,
     /// a dup of the server's receiving socket is not available (private); use tx for shutdown
     thread: Option<std::thread::JoinHandle<()>>,
+    /// kernel thread id of the server thread
+    tid: Arc<std::sync::atomic::AtomicI32>,
 }
 
 fn new_srv(adapter: &str) -> SrvRig {
@@ -139,7 +147,10 @@ fn new_srv(adapter: &str) -> SrvRig {
     };
     // SAFETY: dup of a valid socket descriptor, owned by the new UnixStream.
     let tx = unsafe { UnixStream::from_raw_fd(libc::dup(txfd)) };
+    let tid = Arc::new(std::sync::atomic::AtomicI32::new(0));
+    let tid2 = tid.clone();
     let thread = std::thread::spawn(move || {
+        tid2.store(gettid(), std::sync::atomic::Ordering::SeqCst);
         while let Ok(c) = crx.recv() {
             match c {
                 Cmd::Serve => {
@@ -159,11 +170,13 @@ fn new_srv(adapter: &str) -> SrvRig {
         core,
         tx,
         thread: Some(thread),
+        tid,
     }
 }
 
 impl SrvRig {
     fn finish(mut self) {
+        storm_release();
         let _ = self.cmd.send(Cmd::Quit);
         let _ = self.tx.shutdown(std::net::Shutdown::Both);
         if let Some(t) = self.thread.take() {
@@ -176,7 +189,7 @@ fn script(core: &FCore, r: &str, rng: &mut Rng, step: &Value) -> Value {
     let mut s = core.s.lock().unwrap();
     s.r = r.to_string();
     s.val = *rng.pick(&[1u64, 2, 0xff, 0x1_0000_0000, u64::MAX, 0x8000_0000_0000_0000]);
-    s.errno = *rng.pick(&[1, 2, 5, 12, 22, 38, 95, 4095]);
+    s.errno = *rng.pick(&[1, 2, 4, 5, 11, 12, 22, 32, 38, 95, 104, 4095]);
     // the case may fix the handler's value / errno (so that every class of value is certainly exercised)
     if step.get("val").map(|v| v.is_array()).unwrap_or(false) {
         s.val = from_limbs(&step["val"]);
@@ -366,7 +379,10 @@ pub fn run(cases: &[Value], trace: &mut Trace, seed: u64) {
                     }
                     let (tx, rx) = channel();
                     let f2 = req.file.as_ref().map(|f| f.try_clone().unwrap());
+                    let call_tid = Arc::new(std::sync::atomic::AtomicI32::new(0));
+                    let ct2 = call_tid.clone();
                     let t = std::thread::spawn(move || {
+                        ct2.store(gettid(), std::sync::atomic::Ordering::SeqCst);
                         let r = std::panic::catch_unwind(std::panic::AssertUnwindSafe(|| proxy_call(&be, k, &sm, &m, &f2)));
                         let _ = tx.send(r.unwrap_or_else(|_| "panic".into()));
                     });
@@ -397,7 +413,11 @@ pub fn run(cases: &[Value], trace: &mut Trace, seed: u64) {
                         if res.is_some() && !serving && srv_res.len() as u64 >= sent {
                             break;
                         }
-                        if t0.elapsed() > Duration::from_millis(2000) {
+                        // "never completes": watchdog expired and both the proxy's caller and the server thread are seen asleep
+                        // in a blocking call with nothing left to read (or one of them spins) -- not merely a slow machine
+                        if t0.elapsed() > Duration::from_millis(2000)
+                            && hang_confirmed(t0, &[call_tid.load(std::sync::atomic::Ordering::SeqCst), s.tid.load(std::sync::atomic::Ordering::SeqCst)], &[s.tx.as_raw_fd()])
+                        {
                             hang = true;
                             let _ = s.tx.shutdown(std::net::Shutdown::Both);
                             if res.is_none() {
@@ -427,7 +447,10 @@ pub fn run(cases: &[Value], trace: &mut Trace, seed: u64) {
                     let ps = peer_sock.as_ref().unwrap();
                     let (tx, rx) = channel();
                     let f2 = req.file.as_ref().map(|f| f.try_clone().unwrap());
+                    let call_tid = Arc::new(std::sync::atomic::AtomicI32::new(0));
+                    let ct2 = call_tid.clone();
                     let t = std::thread::spawn(move || {
+                        ct2.store(gettid(), std::sync::atomic::Ordering::SeqCst);
                         let r = std::panic::catch_unwind(std::panic::AssertUnwindSafe(|| proxy_call(&be, k, &sm, &m, &f2)));
                         let _ = tx.send(r.unwrap_or_else(|_| "panic".into()));
                     });
@@ -503,7 +526,7 @@ pub fn run(cases: &[Value], trace: &mut Trace, seed: u64) {
                             chunks_all.extend(chunks);
                             break;
                         }
-                        if t0.elapsed() > Duration::from_millis(2000) {
+                        if t0.elapsed() > Duration::from_millis(2000) && hang_confirmed(t0, &[call_tid.load(std::sync::atomic::Ordering::SeqCst)], &[]) {
                             hang = true;
                             let _ = ps.shutdown(std::net::Shutdown::Both);
                             res = rx.recv_timeout(Duration::from_millis(3000)).ok();
@@ -612,9 +635,9 @@ pub fn run(cases: &[Value], trace: &mut Trace, seed: u64) {
                     }
                     let (sres, hang) = match early {
                         Some(x) => (x, false),
-                        None => match s.res.recv_timeout(Duration::from_millis(2000)) {
-                            Ok(x) => (x, false),
-                            Err(_) => {
+                        None => match recv_or_blocked(&s.res, Duration::from_millis(2000), Duration::from_secs(120), &|| vec![s.tid.load(std::sync::atomic::Ordering::SeqCst)], &[]) {
+                            Some(x) => (x, false),
+                            None => {
                                 let _ = ps.shutdown(std::net::Shutdown::Both);
                                 (s.res.recv_timeout(Duration::from_millis(3000)).unwrap_or_else(|_| "stuck".into()), true)
                             }
